@@ -169,16 +169,37 @@ func (a *A) ruleTakeKeep(W *types.Named, fn *ssa.Function, sp tkSpec) int {
 		if xt.Kind != "field" || xt.Field != dataF {
 			continue
 		}
+		type cut struct {
+			at   ssa.Instruction
+			kind string
+		}
+		var cuts []cut
 		for _, c := range l.elemAppends() {
 			si := sinksOf(c)
-			kind := ""
 			if si.StoredField[dataF] {
-				kind = "keep"
+				cuts = append(cuts, cut{c, "keep"})
 			} else if si.Returned || len(si.PassedTo) > 0 {
-				kind = "take"
-			} else {
-				continue
+				cuts = append(cuts, cut{c, "take"})
 			}
+		}
+		// the in-place compaction keeps a row by storing it at the write cursor: buf[kept] = row; kept++
+		isBufLoad := func(v ssa.Value) bool {
+			ld, ok := v.(*ssa.UnOp)
+			return ok && ld.Op == token.MUL && fieldAddrIs(ld.X, dataF)
+		}
+		for b := range l.Blocks {
+			for _, in := range b.Instrs {
+				st, ok := in.(*ssa.Store)
+				if !ok {
+					continue
+				}
+				if ia, ok := st.Addr.(*ssa.IndexAddr); ok && isBufLoad(ia.X) && compactionCursor(ia.Index, []*RLoop{l}, isBufLoad) {
+					cuts = append(cuts, cut{st, "keep"})
+				}
+			}
+		}
+		for _, ct := range cuts {
+			c, kind := ct.at, ct.kind
 			n++
 			construct := fmt.Sprintf("%s#%s-append", fname(fn), kind)
 			roles := []string{"t", "S", "E"}
@@ -230,7 +251,7 @@ func (a *A) ruleTakeKeep(W *types.Named, fn *ssa.Function, sp tkSpec) int {
 				Eval: func(env *Env) (Tri, string) {
 					return evalReach(env, nil, l.Body, l.Header,
 						func(b *ssa.BasicBlock) bool { return b == l.Header },
-						func(in ssa.Instruction, _ *Walker) bool { return in == ssa.Instruction(c) })
+						func(in ssa.Instruction, _ *Walker) bool { return in == c })
 				},
 			}
 			switch {
@@ -1241,6 +1262,10 @@ func (a *A) ruleBufferArrivalOrder(W *types.Named) {
 							}
 						}
 					}
+					if !okHigh && compactionCursor(x.High, loops, isBufLoad) {
+						a.Ok(construct, x.Pos(), "buffer[:kept] after an in-place compaction: kept counts the rows a full scan moved to the front, in their order")
+						return
+					}
 					if !okHigh {
 						a.Bad(construct, x.Pos(), "the buffer is truncated to %s: only buffer[:len-1] (the row appended by this very Add call) is an order-blind truncation", TermOf(x.High, nil).String())
 						return
@@ -1283,6 +1308,113 @@ func (a *A) ruleBufferArrivalOrder(W *types.Named) {
 	if n == 0 {
 		a.Und(wn+".data", token.NoPos, "no use of the row buffer found")
 	}
+}
+
+// compactionCursor: k is the write cursor of an in-place compaction of the buffer -
+//
+//	kept := 0; for i := range buf { if keep(buf[i]) { buf[kept] = buf[i]; kept++ } }; buf = buf[:kept]
+//
+// k is a phi in the header of a full scan of the buffer, 0 on entry; inside the loop it stays or grows by one, and it
+// grows only in a block that stores the scanned element at position k. So k <= i throughout (no element is overwritten
+// before it is read), the kept elements end up at 0..k-1 in their original order, and buf[:k] drops nothing that was
+// kept: the truncation is by content, not by position.
+func compactionCursor(k ssa.Value, loops []*RLoop, isBufLoad func(ssa.Value) bool) bool {
+	phi, ok := k.(*ssa.Phi)
+	if !ok {
+		return false
+	}
+	var loop *RLoop
+	for _, l := range loops {
+		if l.Header == phi.Block() && l.X != nil && isBufLoad(l.X) {
+			loop = l
+		}
+	}
+	if loop == nil {
+		return false
+	}
+	isElem := func(v ssa.Value) bool {
+		if v == loop.Elem && v != nil || loop.Elems[v] {
+			return true
+		}
+		if ld, ok := v.(*ssa.UnOp); ok && ld.Op == token.MUL {
+			if al, ok := ld.X.(*ssa.Alloc); ok && al == loop.ElemAl && al != nil {
+				return true
+			}
+			if ia, ok := ld.X.(*ssa.IndexAddr); ok && isBufLoad(ia.X) {
+				if bo, ok := ia.Index.(*ssa.BinOp); ok && bo.Block() == loop.Header {
+					return true
+				}
+				if loop.Index != nil && ia.Index == loop.Index {
+					return true
+				}
+			}
+		}
+		return false
+	}
+	entry := 0
+	seen := map[ssa.Value]bool{}
+	var inside func(v ssa.Value) bool
+	inside = func(v ssa.Value) bool {
+		if v == ssa.Value(phi) || seen[v] {
+			return true
+		}
+		seen[v] = true
+		switch x := v.(type) {
+		case *ssa.Phi:
+			if !loop.Blocks[x.Block()] {
+				return false
+			}
+			for _, e := range x.Edges {
+				if !inside(e) {
+					return false
+				}
+			}
+			return true
+		case *ssa.BinOp:
+			if x.Op != token.ADD || x.X != ssa.Value(phi) {
+				return false
+			}
+			if c, ok := x.Y.(*ssa.Const); !ok || c.Value == nil || c.Int64() != 1 {
+				return false
+			}
+			// the increment goes with a store of the scanned element at the cursor
+			for _, in := range x.Block().Instrs {
+				st, ok := in.(*ssa.Store)
+				if !ok {
+					continue
+				}
+				ia, ok := st.Addr.(*ssa.IndexAddr)
+				if ok && isBufLoad(ia.X) && ia.Index == ssa.Value(phi) && isElem(st.Val) {
+					return true
+				}
+			}
+		}
+		return false
+	}
+	for i, e := range phi.Edges {
+		p := phi.Block().Preds[i]
+		if loop.Blocks[p] || p == loop.Header {
+			if !inside(e) {
+				return false
+			}
+			continue
+		}
+		if !isZeroConst(e) {
+			return false
+		}
+		entry++
+	}
+	// no other store at the cursor position inside the loop
+	for b := range loop.Blocks {
+		for _, in := range b.Instrs {
+			if st, ok := in.(*ssa.Store); ok {
+				if ia, ok := st.Addr.(*ssa.IndexAddr); ok && isBufLoad(ia.X) && !isElem(st.Val) {
+					return false
+				}
+			}
+		}
+	}
+	return entry == 1
 }
 
 func isZeroConst(v ssa.Value) bool {
